@@ -48,7 +48,7 @@ def n_for(P_, kind):
 
 
 def schedules(P_):
-    """(label, calls).  tol tokens: inf | T0 | ('list', k) = T0*[1, .5, .25,...] | next | ('below', f) = f*final_tol"""
+    """(label, calls).  tol tokens: inf | T0 | ('list', k) = T0*[1, .5, .25,...] | next | ('below-next', f) = between the smallest cost and next_tol"""
     ne, ni = n_for(P_, "exactq"), n_for(P_, "interp")
     return [
         ("rejection", ne, [dict(kind="get", G=1, tol="T0", q=None, M=None)]),
@@ -60,6 +60,8 @@ def schedules(P_):
         ("mnn-all", ne, [dict(kind="get", G=2, tol="inf", q=0.5, M=ne - 1)]),
         ("mnn-some", ne, [dict(kind="get", G=2, tol=("list", 2), q=None, M=ne - 2)]),
         ("get-continue-q", ne, [dict(kind="get", G=2, tol="inf", q=0.5, M=None), dict(kind="continue", G=2, tol="next", q=0.5, M=None)]),
+        # a continued quantile run asked for a tolerance strictly below the one the previous run proposes (next_tol)
+        ("get-continue-q-below", ne, [dict(kind="get", G=2, tol="inf", q=0.5, M=None), dict(kind="continue", G=2, tol=("below-next", 0.5), q=0.5, M=None)]),
         ("get-continue-list", ne, [dict(kind="get", G=1, tol="T0", q=None, M=None), dict(kind="continue", G=2, tol=("below-list", 2), q=None, M=None)]),
         ("get-continue-continue", ne, [dict(kind="get", G=1, tol="inf", q=0.5, M=None), dict(kind="continue", G=1, tol="next", q=0.5, M=None),
                                        dict(kind="continue", G=2, tol="next", q=0.5, M=ne - 1)]),
@@ -93,6 +95,8 @@ def resolve_tol(tok, pb, abc, T0):
         return float(abc.next_tol)
     if tok[0] == "list":
         return [pb.cmin() + (T0 - pb.cmin()) * 0.5 ** i for i in range(tok[1])]
+    if tok[0] == "below-next":
+        return pb.cmin() + (float(abc.next_tol) - pb.cmin()) * tok[1]
     if tok[0] == "below-list":
         return [pb.cmin() + (float(abc.final_tol) - pb.cmin()) * 0.5 ** (i + 1) for i in range(tok[1])]
     raise ValueError(tok)
